@@ -143,7 +143,7 @@ func (p *Program) frozenConst(g *Gen, gl *ssa.Global) string {
 	if _, isIface := el.Underlying().(*types.Interface); isIface && types.Implements(el, errorIface()) {
 		id := p.globalIndex(gl)
 		// distinct payloads make sentinels pairwise different; tag of *errors.errorString-like values is shared
-		g.defs = append(g.defs, fmt.Sprintf("(and (not (= (i_tag %s) 0)) (= (i_val %s) %d))", name, name, -1000-id))
+		g.defs = append(g.defs, fmt.Sprintf("(and (not (= (i_tag %s) 0)) (= (i_val %s) (- %d)))", name, name, 1000+id))
 	}
 	return name
 }
